@@ -65,9 +65,12 @@ class Violation:
 
 
 def load_findings():
-    path = os.path.join(VERIF, "known_findings.jsonl")
+    import glob
+    paths = [os.path.join(VERIF, "known_findings.jsonl")] + sorted(glob.glob(os.path.join(VERIF, "modules", "*", "known_findings.jsonl")))
     known, fixed = {}, []
-    if os.path.exists(path):
+    for path in paths:
+        if not os.path.exists(path):
+            continue
         for line in open(path):
             line = line.strip()
             if not line or line.startswith("#"):
